@@ -117,6 +117,26 @@ def civilOp (toks : List String) : Option String :=
       | [y, m, d, w] =>
         some (showCk (do let a ← Civil.civilNew .day y m d 0 0 0; Civil.prevWeekday a w) showFields)
       | _ => none
+  | "nwi" :: rest => do
+      match ← ints rest with
+      | [y, m, d, w] =>
+        some (showCk (do
+          let a ← Civil.civilNew .day y m d 0 0 0
+          let b ← Civil.civilSub .day a 1
+          let r ← Civil.nextWeekday b w
+          let g ← Civil.getWeekday r
+          pure (r, g)) fun (r, g) => s!"{showFields r} {g}")
+      | _ => none
+  | "pwi" :: rest => do
+      match ← ints rest with
+      | [y, m, d, w] =>
+        some (showCk (do
+          let a ← Civil.civilNew .day y m d 0 0 0
+          let b ← Civil.civilAdd .day a 1
+          let r ← Civil.prevWeekday b w
+          let g ← Civil.getWeekday r
+          pure (r, g)) fun (r, g) => s!"{showFields r} {g}")
+      | _ => none
   | _ => none
 
 /-! ### fixed-offset names, POSIX-TZ strings, split/join -/
